@@ -512,10 +512,13 @@ Definition pkgo_cands (n : node) : list (diag * option (string * string)) :=
       | None => []
       end
   | KIdent =>
+      (* a plain identifier: an object of this package or a name brought in by a dot import;
+         the selected identifier of pkg.Name is judged with its selector expression *)
+      if a_flag (n_attrs n) then [] else
       match a_obj (n_attrs n) with
       | Some o =>
           match o_pkg o with
-          | Some p => if String.eqb p cur_pkg then pkgo_obj_cand o cur_pkg (n_pos n) else []
+          | Some p => pkgo_obj_cand o p (n_pos n)
           | None => []
           end
       | None => []
